@@ -18,7 +18,8 @@ DESIGN_REF = 'DESIGN.md section 3 C03'
 LEVEL = 'exploration'
 RULE = ('Cases: (circuit, simulator class, c_reuse, strip_forks, batch size, capacity spec, delay seed/range/dtype, stimulus seed) from the seeded '
         'generator, plus single-operation driver cases (primitive, capacity, input waveforms of 0..12 transitions). Non-trivial iff some line carries '
-        '>= 2 transitions. Distinct = digest of all case fields.')
+        '>= 2 transitions. Distinct = digest of all case fields.'
+        ' One large case per shard (350-600 gates, capacities 48-72: more than 65535 memory rows); a third of the cases captures at a finite sampling time.')
 ASSUMPTIONS = ['delays >= 0 and all times on the grid k/4 (k < 1024), delays k/4 (k < 64)', 'capacities are positive multiples of 4',
                'unconnected pins read constant 0']
 REACH = {'wave_sim._wave_eval': ('wave_sim.py', 155, 265), 'wave_sim.capture': ('wave_sim.py', 283, 327), 'wave_sim.gpu': ('wave_sim.py', 398, 516)}
